@@ -12,6 +12,7 @@ class AnalysisError(Exception):
 # --------------------------------------------------------------------------- std tables
 # Calls through which a value keeps its identity (origin of result = origin of arg 0).
 PASS_THROUGH = {
+    "std::mem::replace", "std::mem::take",          # the value returned is what the place held
     "std::ops::Deref::deref", "std::ops::DerefMut::deref_mut",
     "std::convert::AsRef::as_ref", "std::convert::AsMut::as_mut",
     "std::borrow::Borrow::borrow", "std::borrow::BorrowMut::borrow_mut",
